@@ -3,15 +3,15 @@
 // Contracts for deductive verification (read by /verif/govc). Comment-only: this file adds no code.
 package keeper
 
-//@ store AccountAuth kv=did/AccountAuth/value/ key=did_AccountAuthKey val=github.com/SaoNetwork/sao/x/did/types.AccountAuth
+//@ store AccountAuth kv=did/AccountAuth/value/ key=did_AccountAuthKey val=github.com/SaoNetwork/sao/x/did/types.AccountAuth keyfield=AccountDid
 //@ accessor get (Keeper) GetAccountAuth AccountAuth(accountDid)
 //@ accessor set (Keeper) SetAccountAuth AccountAuth(accountAuth.AccountDid) accountAuth
 //@ accessor del (Keeper) RemoveAccountAuth AccountAuth(accountDid)
-//@ store AccountId kv=did/AccountId/value/ key=did_AccountIdKey val=github.com/SaoNetwork/sao/x/did/types.AccountId
+//@ store AccountId kv=did/AccountId/value/ key=did_AccountIdKey val=github.com/SaoNetwork/sao/x/did/types.AccountId keyfield=AccountDid
 //@ accessor get (Keeper) GetAccountId AccountId(accountDid)
 //@ accessor set (Keeper) SetAccountId AccountId(accountId.AccountDid) accountId
 //@ accessor del (Keeper) RemoveAccountId AccountId(accountDid)
-//@ store AccountList kv=did/AccountList/value/ key=did_AccountListKey val=github.com/SaoNetwork/sao/x/did/types.AccountList
+//@ store AccountList kv=did/AccountList/value/ key=did_AccountListKey val=github.com/SaoNetwork/sao/x/did/types.AccountList keyfield=Did
 //@ accessor get (Keeper) GetAccountList AccountList(did)
 //@ accessor set (Keeper) SetAccountList AccountList(accountList.Did) accountList
 //@ accessor del (Keeper) RemoveAccountList AccountList(did)
@@ -23,11 +23,11 @@ package keeper
 //@ accessor get (Keeper) GetDidBalances DidBalances(did)
 //@ accessor set (Keeper) SetDidBalances DidBalances(didBalances.Did) didBalances
 //@ accessor del (Keeper) RemoveDidBalances DidBalances(did)
-//@ store Kid kv=did/Kid/value/ key=did_KidKey val=github.com/SaoNetwork/sao/x/did/types.Kid
+//@ store Kid kv=did/Kid/value/ key=did_KidKey val=github.com/SaoNetwork/sao/x/did/types.Kid keyfield=Address
 //@ accessor get (Keeper) GetKid Kid(address)
 //@ accessor set (Keeper) SetKid Kid(kid.Address) kid
 //@ accessor del (Keeper) RemoveKid Kid(address)
-//@ store PastSeeds kv=did/PastSeeds/value/ key=did_PastSeedsKey val=github.com/SaoNetwork/sao/x/did/types.PastSeeds
+//@ store PastSeeds kv=did/PastSeeds/value/ key=did_PastSeedsKey val=github.com/SaoNetwork/sao/x/did/types.PastSeeds keyfield=Did
 //@ accessor get (Keeper) GetPastSeeds PastSeeds(did)
 //@ accessor set (Keeper) SetPastSeeds PastSeeds(pastSeeds.Did) pastSeeds
 //@ accessor del (Keeper) RemovePastSeeds PastSeeds(did)
@@ -35,11 +35,11 @@ package keeper
 //@ accessor get (Keeper) GetPaymentAddress PaymentAddress(did)
 //@ accessor set (Keeper) SetPaymentAddress PaymentAddress(paymentAddress.Did) paymentAddress
 //@ accessor del (Keeper) RemovePaymentAddress PaymentAddress(did)
-//@ store SidDocument kv=did/SidDocument/value/ key=did_SidDocumentKey val=github.com/SaoNetwork/sao/x/did/types.SidDocument
+//@ store SidDocument kv=did/SidDocument/value/ key=did_SidDocumentKey val=github.com/SaoNetwork/sao/x/did/types.SidDocument keyfield=VersionId
 //@ accessor get (Keeper) GetSidDocument SidDocument(versionId)
 //@ accessor set (Keeper) SetSidDocument SidDocument(sidDocument.VersionId) sidDocument
 //@ accessor del (Keeper) RemoveSidDocument SidDocument(versionId)
-//@ store SidDocumentVersion kv=did/SidDocumentVersion/value/ key=did_SidDocumentVersionKey val=github.com/SaoNetwork/sao/x/did/types.SidDocumentVersion
+//@ store SidDocumentVersion kv=did/SidDocumentVersion/value/ key=did_SidDocumentVersionKey val=github.com/SaoNetwork/sao/x/did/types.SidDocumentVersion keyfield=DocId
 //@ accessor get (Keeper) GetSidDocumentVersion SidDocumentVersion(docId)
 //@ accessor set (Keeper) SetSidDocumentVersion SidDocumentVersion(sidDocumentVersion.DocId) sidDocumentVersion
 //@ accessor del (Keeper) RemoveSidDocumentVersion SidDocumentVersion(docId)
@@ -66,3 +66,113 @@ package keeper
 //@   ensures [C06.did.bankframe] forall a addr, d string :: (a != moduleAddr(module) && a != moduleAddr("did")) || d != amount.Denom ==> bal(a, d) == old(bal(a, d))
 //@   ensures [C06.did.zero] amount.Amount == 0 ==> err == nil && (forall a addr, d string :: bal(a, d) == old(bal(a, d))) && DidBalances[did] == old(DidBalances[did]) && (has(DidBalances, did) <==> old(has(DidBalances, did)))
 //@   ensures [C06.did.repinv] has(DidBalances, did) ==> DidBalances[did].Did == did
+
+// GetAllAccountList: the genesis export of the AccountList store - every stored record, each exactly as stored
+//@ func (Keeper) GetAllAccountList(ctx) (list)
+//@   modifies nothing
+//@   ensures [C18.getall.accountlist.stored] forall j int :: 0 <= j && j < len(list) ==> has(AccountList, list[j].Did) && AccountList[list[j].Did] == list[j]
+//@   ensures [C18.getall.accountlist.complete] forall c string :: has(AccountList, c) ==> contains(list, AccountList[c])
+//@   ensures [C18.getall.accountlist.distinct] forall a int, b int :: 0 <= a && a < b && b < len(list) ==> list[a].Did != list[b].Did
+//@   loop L1 invariant 0 <= itpos() && itpos() <= itlen() && len(list) == itpos()
+//@   loop L1 invariant forall j int :: 0 <= j && j < len(list) ==> list[j] == rawget(AccountList, itkey(j)) && itkey(j) == keyof(AccountList, list[j].Did)
+//@   loop L1 invariant forall j int :: 0 <= j && j < len(list) ==> contains(list, list[j])
+//@   loop L1 decreases [C02.getall.accountlist.term] itlen() - itpos()
+
+// GetAllAccountAuth: the genesis export of the AccountAuth store - every stored record, each exactly as stored
+//@ func (Keeper) GetAllAccountAuth(ctx) (list)
+//@   modifies nothing
+//@   ensures [C18.getall.accountauth.stored] forall j int :: 0 <= j && j < len(list) ==> has(AccountAuth, list[j].AccountDid) && AccountAuth[list[j].AccountDid] == list[j]
+//@   ensures [C18.getall.accountauth.complete] forall c string :: has(AccountAuth, c) ==> contains(list, AccountAuth[c])
+//@   ensures [C18.getall.accountauth.distinct] forall a int, b int :: 0 <= a && a < b && b < len(list) ==> list[a].AccountDid != list[b].AccountDid
+//@   loop L1 invariant 0 <= itpos() && itpos() <= itlen() && len(list) == itpos()
+//@   loop L1 invariant forall j int :: 0 <= j && j < len(list) ==> list[j] == rawget(AccountAuth, itkey(j)) && itkey(j) == keyof(AccountAuth, list[j].AccountDid)
+//@   loop L1 invariant forall j int :: 0 <= j && j < len(list) ==> contains(list, list[j])
+//@   loop L1 decreases [C02.getall.accountauth.term] itlen() - itpos()
+
+// GetAllSidDocument: the genesis export of the SidDocument store - every stored record, each exactly as stored
+//@ func (Keeper) GetAllSidDocument(ctx) (list)
+//@   modifies nothing
+//@   ensures [C18.getall.siddocument.stored] forall j int :: 0 <= j && j < len(list) ==> has(SidDocument, list[j].VersionId) && SidDocument[list[j].VersionId] == list[j]
+//@   ensures [C18.getall.siddocument.complete] forall c string :: has(SidDocument, c) ==> contains(list, SidDocument[c])
+//@   ensures [C18.getall.siddocument.distinct] forall a int, b int :: 0 <= a && a < b && b < len(list) ==> list[a].VersionId != list[b].VersionId
+//@   loop L1 invariant 0 <= itpos() && itpos() <= itlen() && len(list) == itpos()
+//@   loop L1 invariant forall j int :: 0 <= j && j < len(list) ==> list[j] == rawget(SidDocument, itkey(j)) && itkey(j) == keyof(SidDocument, list[j].VersionId)
+//@   loop L1 invariant forall j int :: 0 <= j && j < len(list) ==> contains(list, list[j])
+//@   loop L1 decreases [C02.getall.siddocument.term] itlen() - itpos()
+
+// GetAllSidDocumentVersion: the genesis export of the SidDocumentVersion store - every stored record, each exactly as stored
+//@ func (Keeper) GetAllSidDocumentVersion(ctx) (list)
+//@   modifies nothing
+//@   ensures [C18.getall.siddocumentversion.stored] forall j int :: 0 <= j && j < len(list) ==> has(SidDocumentVersion, list[j].DocId) && SidDocumentVersion[list[j].DocId] == list[j]
+//@   ensures [C18.getall.siddocumentversion.complete] forall c string :: has(SidDocumentVersion, c) ==> contains(list, SidDocumentVersion[c])
+//@   ensures [C18.getall.siddocumentversion.distinct] forall a int, b int :: 0 <= a && a < b && b < len(list) ==> list[a].DocId != list[b].DocId
+//@   loop L1 invariant 0 <= itpos() && itpos() <= itlen() && len(list) == itpos()
+//@   loop L1 invariant forall j int :: 0 <= j && j < len(list) ==> list[j] == rawget(SidDocumentVersion, itkey(j)) && itkey(j) == keyof(SidDocumentVersion, list[j].DocId)
+//@   loop L1 invariant forall j int :: 0 <= j && j < len(list) ==> contains(list, list[j])
+//@   loop L1 decreases [C02.getall.siddocumentversion.term] itlen() - itpos()
+
+// GetAllPastSeeds: the genesis export of the PastSeeds store - every stored record, each exactly as stored
+//@ func (Keeper) GetAllPastSeeds(ctx) (list)
+//@   modifies nothing
+//@   ensures [C18.getall.pastseeds.stored] forall j int :: 0 <= j && j < len(list) ==> has(PastSeeds, list[j].Did) && PastSeeds[list[j].Did] == list[j]
+//@   ensures [C18.getall.pastseeds.complete] forall c string :: has(PastSeeds, c) ==> contains(list, PastSeeds[c])
+//@   ensures [C18.getall.pastseeds.distinct] forall a int, b int :: 0 <= a && a < b && b < len(list) ==> list[a].Did != list[b].Did
+//@   loop L1 invariant 0 <= itpos() && itpos() <= itlen() && len(list) == itpos()
+//@   loop L1 invariant forall j int :: 0 <= j && j < len(list) ==> list[j] == rawget(PastSeeds, itkey(j)) && itkey(j) == keyof(PastSeeds, list[j].Did)
+//@   loop L1 invariant forall j int :: 0 <= j && j < len(list) ==> contains(list, list[j])
+//@   loop L1 decreases [C02.getall.pastseeds.term] itlen() - itpos()
+
+// GetAllPaymentAddress: the genesis export of the PaymentAddress store - every stored record, each exactly as stored
+//@ func (Keeper) GetAllPaymentAddress(ctx) (list)
+//@   modifies nothing
+//@   ensures [C18.getall.paymentaddress.stored] forall j int :: 0 <= j && j < len(list) ==> has(PaymentAddress, list[j].Did) && PaymentAddress[list[j].Did] == list[j]
+//@   ensures [C18.getall.paymentaddress.complete] forall c string :: has(PaymentAddress, c) ==> contains(list, PaymentAddress[c])
+//@   ensures [C18.getall.paymentaddress.distinct] forall a int, b int :: 0 <= a && a < b && b < len(list) ==> list[a].Did != list[b].Did
+//@   loop L1 invariant 0 <= itpos() && itpos() <= itlen() && len(list) == itpos()
+//@   loop L1 invariant forall j int :: 0 <= j && j < len(list) ==> list[j] == rawget(PaymentAddress, itkey(j)) && itkey(j) == keyof(PaymentAddress, list[j].Did)
+//@   loop L1 invariant forall j int :: 0 <= j && j < len(list) ==> contains(list, list[j])
+//@   loop L1 decreases [C02.getall.paymentaddress.term] itlen() - itpos()
+
+// GetAllAccountId: the genesis export of the AccountId store - every stored record, each exactly as stored
+//@ func (Keeper) GetAllAccountId(ctx) (list)
+//@   modifies nothing
+//@   ensures [C18.getall.accountid.stored] forall j int :: 0 <= j && j < len(list) ==> has(AccountId, list[j].AccountDid) && AccountId[list[j].AccountDid] == list[j]
+//@   ensures [C18.getall.accountid.complete] forall c string :: has(AccountId, c) ==> contains(list, AccountId[c])
+//@   ensures [C18.getall.accountid.distinct] forall a int, b int :: 0 <= a && a < b && b < len(list) ==> list[a].AccountDid != list[b].AccountDid
+//@   loop L1 invariant 0 <= itpos() && itpos() <= itlen() && len(list) == itpos()
+//@   loop L1 invariant forall j int :: 0 <= j && j < len(list) ==> list[j] == rawget(AccountId, itkey(j)) && itkey(j) == keyof(AccountId, list[j].AccountDid)
+//@   loop L1 invariant forall j int :: 0 <= j && j < len(list) ==> contains(list, list[j])
+//@   loop L1 decreases [C02.getall.accountid.term] itlen() - itpos()
+
+// GetAllDid: the genesis export of the Did store - every stored record, each exactly as stored
+//@ func (Keeper) GetAllDid(ctx) (list)
+//@   modifies nothing
+//@   ensures [C18.getall.did.stored] forall j int :: 0 <= j && j < len(list) ==> has(Did, list[j].AccountId) && Did[list[j].AccountId] == list[j]
+//@   ensures [C18.getall.did.complete] forall c string :: has(Did, c) ==> contains(list, Did[c])
+//@   ensures [C18.getall.did.distinct] forall a int, b int :: 0 <= a && a < b && b < len(list) ==> list[a].AccountId != list[b].AccountId
+//@   loop L1 invariant 0 <= itpos() && itpos() <= itlen() && len(list) == itpos()
+//@   loop L1 invariant forall j int :: 0 <= j && j < len(list) ==> list[j] == rawget(Did, itkey(j)) && itkey(j) == keyof(Did, list[j].AccountId)
+//@   loop L1 invariant forall j int :: 0 <= j && j < len(list) ==> contains(list, list[j])
+//@   loop L1 decreases [C02.getall.did.term] itlen() - itpos()
+
+// GetAllKid: the genesis export of the Kid store - every stored record, each exactly as stored
+//@ func (Keeper) GetAllKid(ctx) (list)
+//@   modifies nothing
+//@   ensures [C18.getall.kid.stored] forall j int :: 0 <= j && j < len(list) ==> has(Kid, list[j].Address) && Kid[list[j].Address] == list[j]
+//@   ensures [C18.getall.kid.complete] forall c string :: has(Kid, c) ==> contains(list, Kid[c])
+//@   ensures [C18.getall.kid.distinct] forall a int, b int :: 0 <= a && a < b && b < len(list) ==> list[a].Address != list[b].Address
+//@   loop L1 invariant 0 <= itpos() && itpos() <= itlen() && len(list) == itpos()
+//@   loop L1 invariant forall j int :: 0 <= j && j < len(list) ==> list[j] == rawget(Kid, itkey(j)) && itkey(j) == keyof(Kid, list[j].Address)
+//@   loop L1 invariant forall j int :: 0 <= j && j < len(list) ==> contains(list, list[j])
+//@   loop L1 decreases [C02.getall.kid.term] itlen() - itpos()
+
+// GetAllDidBalances: the genesis export of the DidBalances store - every stored record, each exactly as stored
+//@ func (Keeper) GetAllDidBalances(ctx) (list)
+//@   modifies nothing
+//@   ensures [C18.getall.didbalances.stored] forall j int :: 0 <= j && j < len(list) ==> has(DidBalances, list[j].Did) && DidBalances[list[j].Did] == list[j]
+//@   ensures [C18.getall.didbalances.complete] forall c string :: has(DidBalances, c) ==> contains(list, DidBalances[c])
+//@   ensures [C18.getall.didbalances.distinct] forall a int, b int :: 0 <= a && a < b && b < len(list) ==> list[a].Did != list[b].Did
+//@   loop L1 invariant 0 <= itpos() && itpos() <= itlen() && len(list) == itpos()
+//@   loop L1 invariant forall j int :: 0 <= j && j < len(list) ==> list[j] == rawget(DidBalances, itkey(j)) && itkey(j) == keyof(DidBalances, list[j].Did)
+//@   loop L1 invariant forall j int :: 0 <= j && j < len(list) ==> contains(list, list[j])
+//@   loop L1 decreases [C02.getall.didbalances.term] itlen() - itpos()
